@@ -439,6 +439,27 @@ def window_extra(pid, inner=None, monitor=False):
     return extra
 
 
+def kernel_extra(pid, wanted, inner=None):
+    """Finite kernels of the real crate and of the model on the same grids (every run)."""
+    def extra(ctx, res, allsched, impl):
+        if inner:
+            inner(ctx, res, allsched, impl)
+        if ctx.get("replay"):
+            return
+        mism, ncases, counts = kernels.compare_kernels(ctx["binary"], wanted)
+        for m in mism:
+            res["divergences"].append(dict(kind="kernel", component=m["component"], field=m["kernel"], detail=m))
+            if m["component"] == "preconditions":
+                # the builders and the model disagree on what is accepted: the offending argument tuple is the failing input
+                res["failures"].append(dict(signature="precondition-mismatch", no_shrink=True, kernel=m["kernel"], input=m["input"], model=m["model"], impl=m["impl"],
+                                            what="%s: for the arguments %s the builder %s while the documented precondition (the premise of the theorems) %s"
+                                                 % (m["kernel"], m["input"], "accepts" if m["impl"] else "panics", "holds" if m["model"] else "fails")))
+        res["evaluations"] += ncases
+        res["extra"]["kernel_cases"] = counts
+        res["rule"] += "; kernel grids %s compared case by case" % sorted(counts)
+    return extra
+
+
 def micro_extra(pid, inner=None, profiles=("general", "ttl", "reads", "queue1", "awaited", "shutdown")):
     """Micro schedules: calls started in point-stepping mode and continued one schedule point at a time (`call.entered`,
     `put.checked`, `send.enter`, `delete.marked`, `read.hit`, `upsert.after_store_update`, the six stages of shutdown) and
@@ -511,7 +532,7 @@ def mk(pid, profiles, nq, nt, **kw):
 
 
 PROPS.update({
-    "C01": dict(module="C01", modules=["C01", "C01_ledger"], run=mk("C01", ["general", "default_weights", "ttl", "queue1", "evict", "evict2"], 260, 4000, extra=release_extra("C01", stress2_extra("C01"))),
+    "C01": dict(module="C01", modules=["C01", "C01_ledger"], run=mk("C01", ["general", "default_weights", "ttl", "queue1", "evict", "evict2"], 260, 4000, extra=kernel_extra("C01", ["is_space_available_for", "update_weight_stats"], release_extra("C01", stress2_extra("C01")))),
                 components=["weights", "admission", "api", "queue_worker", "store", "ticker"],
                 assumptions=["schedule class proved: all phase-contiguous schedules (one call / command / sweep / batch at a time; calls may be unawaited, callers may be parked); finer interleavings of the worker's check-then-add with sweeper subtractions: ledger model (Ledger.v) once built",
                              "overflow-checking (debug) profile"]),
@@ -519,11 +540,11 @@ PROPS.update({
                 assumptions=["partial: phase-contiguous schedules; 'no memory pressure' is stated per executed put (it fits the free space)"]),
     "C04": dict(module="C04", modules=["C04", "C04_micro"], run=mk("C04", ["general", "ttl", "awaited", "queue1", "expired"], 270, 4000, extra=micro_extra("C04")), components=["store", "api", "queue_worker", "weights", "ticker"]),
     "C05": dict(module="C05", modules=["C05", "C05_micro", "C05_ledger"], run=mk("C05", ["general", "queue1", "ttl", "evict", "evict2"], 250, 4000, extra=micro_extra("C05", stress_quiescent_extra("C05", stress2_extra("C05")))), components=["weights", "store", "api", "queue_worker", "ticker", "admission"]),
-    "C06": dict(module="C06", run=mk("C06", ["evict2", "evict", "general"], 270, 4000), components=["admission", "weights", "sketch", "tinylfu", "store"]),
+    "C06": dict(module="C06", run=mk("C06", ["evict2", "evict", "general"], 270, 4000, extra=kernel_extra("C06", ["sampled_key_cmp", "is_space_available_for"])), components=["admission", "weights", "sketch", "tinylfu", "store"]),
     "C07": dict(module="C07", modules=["C07", "C07_micro"], run=mk("C07", ["general", "ttl", "awaited", "expired"], 260, 4000, extra=micro_extra("C07", stress2_extra("C07", "nottl"), profiles=("general", "ttl", "awaited", "queue1"))), components=["store", "api", "time", "queue_worker"]),
     "C08": dict(module="C08", modules=["C08", "C08_window", "C08_micro"], run=mk("C08", ["general", "ttl", "roomy", "ttlchain", "upsertpipe", "expired"], 270, 4000, extra=window_extra("C08", monitor=True)), components=["store", "api", "ticker", "weights", "time", "queue_worker"]),
-    "C09": dict(module="C09", run=mk("C09", ["ttl", "general", "ttlchain", "expired"], 260, 4000), components=["store", "time", "api", "ticker"]),
-    "C10": dict(module="C10", modules=["C10", "C10_window"], run=mk("C10", ["ttl", "general", "ttlchain"], 250, 4000, extra=window_extra("C10", monitor=True)), components=["ticker", "weights", "store", "api", "time"]),
+    "C09": dict(module="C09", run=mk("C09", ["ttl", "general", "ttlchain", "expired"], 260, 4000, extra=kernel_extra("C09", ["type_of_expiry_update", "shard_index"])), components=["store", "time", "api", "ticker"]),
+    "C10": dict(module="C10", modules=["C10", "C10_window"], run=mk("C10", ["ttl", "general", "ttlchain"], 250, 4000, extra=kernel_extra("C10", ["shard_index"], window_extra("C10", monitor=True))), components=["ticker", "weights", "store", "api", "time"]),
 })
 
 
@@ -558,10 +579,10 @@ PROPS.update({
                 assumptions=["partial: 'shutdown() returns' and 'every acknowledgement completes' are proved as enabledness/progress facts of the model; that the worker and consumer threads keep being scheduled is assumed"]),
     "C15": dict(module="C15", modules=["C15", "C15_pool", "C15_micro"], run=mk("C15", ["reads", "evict", "general"], 250, 4000, extra=micro_extra("C15", stress_quiescent_extra("C15"), profiles=("reads", "general"))), components=["pool", "stats", "tinylfu", "api"],
                 assumptions=["partial: 'never blocks' is enabledness in the model; that crossbeam's select!{send, default} does not block is exercised with a gated (stalled) and an exited consumer, not proved"]),
-    "C17": dict(module="C17", run=mk("C17", ["boundary", "general", "ttl", "queue1"], 300, 5000, extra=release_extra("C17", stress2_extra("C17", "upserts"))), components=["panics", "roles", "api", "store", "weights", "admission", "ticker", "sketch", "tinylfu", "queue_worker", "time", "pool"],
+    "C17": dict(module="C17", modules=["C17", "C17_precond"], run=mk("C17", ["boundary", "general", "ttl", "queue1"], 300, 5000, extra=kernel_extra("C17", ["config_accepted", "upsert_accepted"], release_extra("C17", stress2_extra("C17", "upserts")))), components=["preconditions", "panics", "roles", "api", "store", "weights", "admission", "ticker", "sketch", "tinylfu", "queue_worker", "time", "pool"],
                 assumptions=["partial: covers the panic sites the model represents (assert!/unwrap/expect/index operations/i64 overflow under the debug profile/SystemTime addition); allocation failure, thread spawn failure and panics inside dependencies are not modelled",
                              "documented preconditions: positive weights, a well-formed upsert, an upsert that turns into a put carries a value"]),
-    "C16": dict(module="C16", run=mk("C16", ["general", "reads", "ttl", "evict"], 250, 4000, extra=stress_quiescent_extra("C16")), components=["stats", "stats.hit_ratio", "store", "weights", "queue_worker", "api", "admission"]),
+    "C16": dict(module="C16", run=mk("C16", ["general", "reads", "ttl", "evict"], 250, 4000, extra=kernel_extra("C16", ["hit_ratio", "update_weight_stats"], stress_quiescent_extra("C16"))), components=["stats", "stats.hit_ratio", "store", "weights", "queue_worker", "api", "admission"]),
 })
 
 
